@@ -320,6 +320,9 @@ func (s *state) tptCase(id string, k tptKind, ktL, ktD string) (unavailable stri
 		return "host has no listen address"
 	}
 	s.r.Eval(1)
+	if os.Getenv("VERIF_DEV") != "" {
+		s.t.Logf("DEV %s hosts up at %v", id, time.Now().Format("05.000"))
+	}
 	addrL, addrM := L.Addrs()[0], M.Addrs()[0]
 	wL, wM := &watcher{}, &watcher{}
 	wL.attach(L)
@@ -377,6 +380,7 @@ func (s *state) tptCase(id string, k tptKind, ktL, ktD string) (unavailable stri
 		ctx, cancel := context.WithTimeout(context.Background(), tptDialTimeout)
 		defer cancel()
 		st := tptStep{Step: step, Call: "transport.Dial", Addr: addr.String(), Named: named, Truth: truth}
+		before := len(wL.snapshot())
 		var cc transport.CapableConn
 		var err error
 		func() {
@@ -393,6 +397,14 @@ func (s *state) tptCase(id string, k tptKind, ktL, ktD string) (unavailable stri
 				if pid, e := peer.IDFromPublicKey(pk); e == nil && pid == st.RemotePeer {
 					st.KeyHashes = true
 				}
+			}
+			// keep it open until L's swarm has shown its end of it (watchdog 5 s): the listener's view of a
+			// connection dialed below the swarm is part of what is judged at the end
+			for dl := time.Now().Add(5 * time.Second); truth == KL.ID && len(wL.snapshot()) == before && time.Now().Before(dl); {
+				time.Sleep(500 * time.Microsecond)
+			}
+			if truth == KL.ID && len(wL.snapshot()) == before {
+				s.r.Count("tpt_listener_never_showed_transport_level_conn/"+k.Name, 1)
 			}
 			cc.Close()
 		}
@@ -491,10 +503,6 @@ func (s *state) tptCase(id string, k tptKind, ktL, ktD string) (unavailable stri
 	judge(st, false)
 	if st.OK && st.RemotePeer == KL.ID && st.KeyHashes {
 		positives++
-	}
-	// L's swarm accepted that connection on its own: wait until it has shown up there (or the watchdog)
-	for deadline := time.Now().Add(tptQuiesce); st.OK && len(wL.snapshot()) == 0 && time.Now().Before(deadline); {
-		time.Sleep(time.Millisecond)
 	}
 	settle()
 	st = hdial("1b-connect-right-peer", "Host.Connect", KL.ID, KL.ID, []ma.Multiaddr{addrL})
@@ -637,7 +645,7 @@ func (s *state) tptCase(id string, k tptKind, ktL, ktD string) (unavailable stri
 		s.r.Inconclusive(id, fmt.Sprintf("L still lists %d connection(s) %v after every dial was closed or refused", left, tptQuiesce))
 	}
 	if os.Getenv("VERIF_DEV") != "" {
-		s.t.Logf("DEV %s attacker=%v", id, c.Attacker)
+		s.t.Logf("DEV %s END at %v attacker=%v", id, time.Now().Format("05.000"), c.Attacker)
 		for _, st := range c.Steps {
 			if st.Millis > 500 {
 				s.t.Logf("DEV slow step %s: %s %s %dms err=%.200s", id, st.Step, st.Call, st.Millis, st.Err)
